@@ -92,10 +92,52 @@ where T: Num + num_traits::FromPrimitive + num_traits::NumOps + num_traits::Zero
     }
 }
 
+/// GridBuilder::from_array fits one strategy per column: it succeeds exactly when every column can be fitted on its own, the grid then
+/// has one axis per column, and otherwise the error of a failing column is returned
+fn grid_builder_one<B>(cfg: &Cfg, rep: &mut Report, sname: &str, cols: &[Vec<i64>])
+where B: BinsBuildingStrategy<Elem = i64> {
+    let case = format!("strategy={};gridbuilder;columns={:?}", sname, cols);
+    if !rep.want(cfg, &case) { return; }
+    let n = cols[0].len();
+    let m = Array2::from_shape_fn((n, cols.len()), |(i, j)| cols[j][i]);
+    let r = guarded(|| {
+        let per_col: Vec<bool> = cols.iter().map(|c| B::from_array(&Array1::from(c.clone())).is_ok()).collect();
+        let g = GridBuilder::<B>::from_array(&m).map(|gb| gb.build().ndim());
+        (per_col, g.map_err(|e| format!("{:?}", e)))
+    });
+    match r {
+        Err(p) => rep.fail_p(cfg, &case, "C12,C17", "GridBuilder panicked", json!({"panic": p})),
+        Ok((per_col, g)) => {
+            let all_ok = per_col.iter().all(|b| *b);
+            match g {
+                Ok(nd) => { if !all_ok { rep.fail_p(cfg, &case, "C12,C17", "GridBuilder::from_array succeeded although a column cannot be fitted", json!({"columns_ok": per_col, "grid_ndim": nd})); }
+                            else if nd != cols.len() { rep.fail_p(cfg, &case, "C12", "the grid does not have one axis per column", json!({"grid_ndim": nd})); } }
+                Err(e) => { if all_ok { rep.fail_p(cfg, &case, "C12,C17", "GridBuilder::from_array failed although every column can be fitted", json!({"error": e})); } }
+            }
+        }
+    }
+    rep.eval(&case, cols.len() >= 2);
+}
+fn grid_builder_cases(cfg: &Cfg, rep: &mut Report) {
+    let varying = vec![3i64, -1, 4, 1, 5, 9, 2, 6];
+    let other = vec![10i64, 20, 30, 40, 50, 60, 70, 80];
+    let constant = vec![7i64; 8];
+    let ties = vec![0i64, 0, 0, 0, 0, 0, 0, 100]; // zero inter-quartile range: FreedmanDiaconis cannot be fitted, Sturges can
+    for cols in [vec![varying.clone(), other.clone()], vec![varying.clone(), constant.clone()], vec![constant.clone(), varying.clone()], vec![varying.clone(), constant.clone(), other.clone()],
+                 vec![constant.clone()], vec![varying.clone(), ties.clone()], vec![varying.clone(), other.clone(), varying.clone()]] {
+        grid_builder_one::<Sqrt<i64>>(cfg, rep, "Sqrt", &cols);
+        grid_builder_one::<Rice<i64>>(cfg, rep, "Rice", &cols);
+        grid_builder_one::<Sturges<i64>>(cfg, rep, "Sturges", &cols);
+        grid_builder_one::<FreedmanDiaconis<i64>>(cfg, rep, "FreedmanDiaconis", &cols);
+        grid_builder_one::<Auto<i64>>(cfg, rep, "Auto", &cols);
+    }
+}
+
 pub fn strategies(cfg: &mut Cfg, rep: &mut Report) {
     let maxn = if cfg.thorough { 6 } else { 5 };
     let maxlin = if cfg.thorough { 400 } else { 120 };
-    rep.bound = format!("integer data: every multiset of length 0..={} over 0..4 scaled by 1/7/1000 and shifted by 0/-100/10^9; N64 data: linspace(0,1,n), 0.1*i, 1e6+0.1*i, i/3 for n in 2..={}, and 8 (negative non-dyadic minimum, power-of-two maximum) ranges with 49 / 121 points; five strategies; 1-D GridBuilder + histogram", maxn, maxlin);
+    rep.bound = format!("integer data: every multiset of length 0..={} over 0..4 scaled by 1/7/1000 and shifted by 0/-100/10^9; N64 data: linspace(0,1,n), 0.1*i, 1e6+0.1*i, i/3 for n in 2..={}, and 8 (negative non-dyadic minimum, power-of-two maximum) ranges with 49 / 121 points; five strategies; 1-D GridBuilder + histogram; GridBuilder on 7 multi-column i64 matrices (varying / constant / zero-IQR columns)", maxn, maxlin);
+    grid_builder_cases(cfg, rep);
     for n in 0..=maxn {
         for_all_arrays(n, 4, |a| {
             if a.windows(2).any(|w| w[0] > w[1]) { return true; } // multisets: one ordering each, plus its reverse below
